@@ -517,6 +517,8 @@ def run_euler(case):
     else:
         ostr = order  # ignored in 2-D (documented)
     hom = case["homogeneous"]
+    if D == 3 and ostr is not None and A.euler_rotation_order(ostr) != order.upper():
+        raise Violation("euler_order_string", f"euler_rotation_order({ostr!r}) = {A.euler_rotation_order(ostr)!r}, expected {order.upper()!r}")
     fn = A.euler_rotation_matrix if case["via"] == "euler_rotation_matrix" else A.rotation_matrix
     m = fn(arg, order=ostr, homogeneous=hom, **kw) if ostr is not None else fn(arg, homogeneous=hom, **kw)
     exp_shape = lead + (D, D + 1 if hom else D)
@@ -632,7 +634,8 @@ def unit(v):
 @st.composite
 def repr_cases(draw):
     kind = draw(st.sampled_from(["q", "v"]))
-    n = draw(st.integers(1, 3))
+    mode = draw(st.sampled_from(["single", "N", "N", "AB"]))
+    n = {"single": 1, "N": draw(st.integers(1, 3)), "AB": 4}[mode]
     comp = gen.qfloat(-1.0, 1.0, 0.01)
     items = []
     for _ in range(n):
@@ -648,8 +651,8 @@ def repr_cases(draw):
             th = draw(st.one_of(gen.qfloat(0.0, math.pi - 0.01, 1e-3), gen.qfloat(0.0, math.pi - 0.01, 1e-3),
                                 st.sampled_from([0.0, 1e-4, 5e-4, 2e-3, math.pi / 2, math.pi - 0.01])))
             items.append(ax + [th])
-    return {"kind": kind, "items": items, "batched": draw(st.booleans()) or n > 1, "dtype": draw(gen.dtypes()),
-            "scale": draw(st.sampled_from([1.0, 1.0, 0.25, 3.0]))}
+    return {"kind": kind, "items": items, "mode": mode, "dtype": draw(gen.dtypes()),
+            "scale": draw(st.sampled_from([1.0, 1.0, 0.25, 3.0])), "layout": draw(st.sampled_from(["contiguous", "contiguous", "transposed"]))}
 
 
 def rot_of_quats(q: np.ndarray) -> np.ndarray:
@@ -660,11 +663,6 @@ def rot_of_vecs(v: np.ndarray) -> np.ndarray:
     return np.stack([ref.axis_angle_matrix(x) for x in v.reshape(-1, 3)])
 
 
-def check_unit(q, bound, kind, what):
-    nrm = np.linalg.norm(q.detach().double().numpy().reshape(-1, 4), axis=1)
-    return check_close(nrm, np.ones_like(nrm), bound, kind, what + ": quaternion not unit length")
-
-
 def run_reprs(case):
     from deepali.core import linalg as L
 
@@ -672,59 +670,64 @@ def run_reprs(case):
     eps = eps_of(dt)
     b = 64 * eps
     n = len(case["items"])
-    batched = case["batched"] or n > 1
+    mode = case["mode"]
+    lead = {"single": (), "N": (n,), "AB": (2, 2)}[mode]
     worst = 0.0
-    labels = [case["kind"], case["dtype"], f"batched={batched}"]
+    labels = [case["kind"], case["dtype"], "shape=" + mode]
 
-    def shaped(arr):  # (n, k) -> (k,) when unbatched
-        t = torch.tensor(arr, dtype=dt)
-        return t if batched else t[0]
+    def shaped(arr, tail):  # (n,) + tail -> lead + tail
+        return torch.tensor(np.asarray(arr).reshape(lead + tail), dtype=dt)
 
-    def T(x):  # result -> (n, ...) numpy
-        a = x.detach().double().numpy()
-        return a if batched else a[None]
+    def T(x, tail, kind, what):  # result of documented shape lead + tail -> (n,) + tail numpy
+        if tuple(x.shape) != lead + tail:
+            raise Violation(kind + "_shape", f"{what}: result shape {tuple(x.shape)}, documented {lead + tail}")
+        return x.detach().double().numpy().reshape((n,) + tail)
+
+    def unit_ratio(qa, bound, kind, what):
+        nrm = np.linalg.norm(qa, axis=1)
+        return check_close(nrm, np.ones_like(nrm), bound, kind, what + ": quaternion not of unit length")
 
     if case["kind"] == "q":
         q64 = np.stack([unit(q) for q in case["items"]])
-        q = shaped(q64)
-        qn = T(q)                                  # values actually passed
+        q = shaped(q64, (4,))
+        qn = q.double().numpy().reshape(n, 4)     # values actually passed
         R = rot_of_quats(qn)
         # quaternion -> matrix
-        m = L.quaternion_to_rotation_matrix(q)
-        if tuple(m.shape) != ((n, 3, 3) if batched else (3, 3)):
-            raise Violation("quat_to_matrix_shape", f"quaternion_to_rotation_matrix({tuple(q.shape)}) -> {tuple(m.shape)}")
-        worst = max(worst, check_close(T(m), R, b, "quat_to_matrix", "quaternion_to_rotation_matrix vs (w,x,y,z) formula"))
+        m = T(L.quaternion_to_rotation_matrix(q), (3, 3), "quat_to_matrix", f"quaternion_to_rotation_matrix({tuple(q.shape)})")
+        worst = max(worst, check_close(m, R, b, "quat_to_matrix", "quaternion_to_rotation_matrix vs (w,x,y,z) formula"))
         # the same rotation for -q and for a rescaled quaternion (the function normalises)
-        worst = max(worst, check_close(T(L.quaternion_to_rotation_matrix(-q * case["scale"])), R, b, "quat_to_matrix",
-                                       "quaternion_to_rotation_matrix(-s q) must be the same rotation"))
+        m = T(L.quaternion_to_rotation_matrix(-q * case["scale"]), (3, 3), "quat_to_matrix", "quaternion_to_rotation_matrix(-s q)")
+        worst = max(worst, check_close(m, R, b, "quat_to_matrix", "quaternion_to_rotation_matrix(-s q) must be the same rotation"))
         # normalize_quaternion
-        worst = max(worst, check_close(T(L.normalize_quaternion(q * case["scale"])), qn / np.linalg.norm(qn, axis=1, keepdims=True),
-                                       8 * eps, "normalize_quaternion", "normalize_quaternion(s q) != q/|q|"))
+        nq = T(L.normalize_quaternion(q * case["scale"]), (4,), "normalize_quaternion", "normalize_quaternion")
+        worst = max(worst, check_close(nq, qn / np.linalg.norm(qn, axis=1, keepdims=True), 8 * eps, "normalize_quaternion",
+                                       "normalize_quaternion(s q) != q/|q|"))
         # quaternion -> angle axis
-        aa = L.quaternion_to_angle_axis(q)
-        if tuple(aa.shape) != ((n, 3) if batched else (3,)):
-            raise Violation("quat_to_angle_axis_shape", f"quaternion_to_angle_axis({tuple(q.shape)}) -> {tuple(aa.shape)}")
-        worst = max(worst, check_close(rot_of_vecs(T(aa)), R, b * 4, "quat_to_angle_axis", "quaternion_to_angle_axis: different rotation"))
+        aa = T(L.quaternion_to_angle_axis(q), (3,), "quat_to_angle_axis", f"quaternion_to_angle_axis({tuple(q.shape)})")
+        worst = max(worst, check_close(rot_of_vecs(aa), R, b * 4, "quat_to_angle_axis", "quaternion_to_angle_axis: different rotation"))
         # log map (half rotation vector); acos is conditioned by 1/|vec q|
         vn = float(np.linalg.norm(qn[:, 1:], axis=1).min())
         if vn >= 0.02:
-            lg = L.quaternion_exp_to_log(q)
-            worst = max(worst, check_close(rot_of_vecs(2 * T(lg)), R, b * 4 * (1 + 1 / vn), "quat_log",
+            lgt = L.quaternion_exp_to_log(q)
+            lg = T(lgt, (3,), "quat_log", "quaternion_exp_to_log")
+            worst = max(worst, check_close(rot_of_vecs(2 * lg), R, b * 4 * (1 + 1 / vn), "quat_log",
                                            "quaternion_exp_to_log: 2*log is not the rotation vector of q"))
-            ex = L.quaternion_log_to_exp(lg)
-            worst = max(worst, check_close(rot_of_quats(T(ex)), R, b * 4 * (1 + 1 / vn), "quat_log_exp", "exp(log(q)) is another rotation"))
+            ex = T(L.quaternion_log_to_exp(lgt), (4,), "quat_exp", "quaternion_log_to_exp")
+            worst = max(worst, check_close(rot_of_quats(ex), R, b * 4 * (1 + 1 / vn), "quat_log_exp", "exp(log(q)) is another rotation"))
         # matrix -> quaternion / angle axis (input: reference matrix of q)
-        Rt = torch.tensor(R if batched else R[0], dtype=dt)
-        Rc = T(Rt)
-        q2 = L.rotation_matrix_to_quaternion(Rt)
-        if tuple(q2.shape) != ((n, 4) if batched else (4,)):
-            raise Violation("matrix_to_quat_shape", f"rotation_matrix_to_quaternion({tuple(Rt.shape)}) -> {tuple(q2.shape)}")
-        worst = max(worst, check_close(rot_of_quats(T(q2)), Rc, b * 4 + FLOOR_M2Q, "matrix_to_quat",
+        if case.get("layout") == "transposed":
+            Rt = shaped(np.swapaxes(R, 1, 2), (3, 3)).transpose(-1, -2)    # same values, non-contiguous memory
+            labels.append("layout=transposed")
+        else:
+            Rt = shaped(R, (3, 3))
+        Rc = Rt.double().numpy().reshape(n, 3, 3)
+        q2 = T(L.rotation_matrix_to_quaternion(Rt), (4,), "matrix_to_quat", f"rotation_matrix_to_quaternion({tuple(Rt.shape)})")
+        worst = max(worst, check_close(rot_of_quats(q2), Rc, b * 4 + FLOOR_M2Q, "matrix_to_quat",
                                        "rotation_matrix_to_quaternion: quaternion of another rotation"))
-        worst = max(worst, check_unit(q2, b + FLOOR_M2Q, "matrix_to_quat", "rotation_matrix_to_quaternion"))
-        if batched:
-            aa2 = L.rotation_matrix_to_angle_axis(Rt)
-            worst = max(worst, check_close(rot_of_vecs(T(aa2)), Rc, b * 4 + FLOOR_M2Q, "matrix_to_angle_axis",
+        worst = max(worst, unit_ratio(q2, b + FLOOR_M2Q, "matrix_to_quat", "rotation_matrix_to_quaternion"))
+        if mode == "N":
+            aa2 = T(L.rotation_matrix_to_angle_axis(Rt), (3,), "matrix_to_angle_axis", "rotation_matrix_to_angle_axis")
+            worst = max(worst, check_close(rot_of_vecs(aa2), Rc, b * 4 + FLOOR_M2Q, "matrix_to_angle_axis",
                                            "rotation_matrix_to_angle_axis: vector of another rotation"))
         w = np.abs(qn[:, 0])
         nt = bool(n > 1 and (qn[:, 0] < 0).any() and (w > 0.05).all())
@@ -732,29 +735,28 @@ def run_reprs(case):
         labels.append("w<0" if (qn[:, 0] < 0).any() else "w>=0")
     else:
         v64 = np.stack([unit(it[:3]) * it[3] for it in case["items"]])
-        v = shaped(v64)
-        vn = T(v)
+        v = shaped(v64, (3,))
+        vn = v.double().numpy().reshape(n, 3)
         R = rot_of_vecs(vn)
         th = np.linalg.norm(vn, axis=1)
         # rotation vector -> quaternion
-        q = L.angle_axis_to_quaternion(v)
-        if tuple(q.shape) != ((n, 4) if batched else (4,)):
-            raise Violation("angle_axis_to_quat_shape", f"angle_axis_to_quaternion({tuple(v.shape)}) -> {tuple(q.shape)}")
-        worst = max(worst, check_close(rot_of_quats(T(q)), R, b * 4, "angle_axis_to_quat", "angle_axis_to_quaternion: another rotation"))
-        worst = max(worst, check_unit(q, b, "angle_axis_to_quat", "angle_axis_to_quaternion"))
+        qt = L.angle_axis_to_quaternion(v)
+        q = T(qt, (4,), "angle_axis_to_quat", f"angle_axis_to_quaternion({tuple(v.shape)})")
+        worst = max(worst, check_close(rot_of_quats(q), R, b * 4, "angle_axis_to_quat", "angle_axis_to_quaternion: another rotation"))
+        worst = max(worst, unit_ratio(q, b, "angle_axis_to_quat", "angle_axis_to_quaternion"))
         # exponential map of the half vector is the same quaternion
-        qe = L.quaternion_log_to_exp(v * 0.5)
-        worst = max(worst, check_close(rot_of_quats(T(qe)), R, b * 4, "quat_exp", "quaternion_log_to_exp(v/2): another rotation"))
-        if batched:
-            m = L.angle_axis_to_rotation_matrix(v)
-            if tuple(m.shape) != (n, 3, 3):
-                raise Violation("angle_axis_to_matrix_shape", f"angle_axis_to_rotation_matrix({tuple(v.shape)}) -> {tuple(m.shape)}")
-            worst = max(worst, check_close(T(m), R, b + max(floor_aa(float(x)) for x in th), "angle_axis_to_matrix", "angle_axis_to_rotation_matrix vs Rodrigues formula"))
+        qe = T(L.quaternion_log_to_exp(v * 0.5), (4,), "quat_exp", "quaternion_log_to_exp")
+        worst = max(worst, check_close(rot_of_quats(qe), R, b * 4, "quat_exp", "quaternion_log_to_exp(v/2): another rotation"))
+        if mode == "N":   # documented input shape (N, 3)
+            m = T(L.angle_axis_to_rotation_matrix(v), (3, 3), "angle_axis_to_matrix", f"angle_axis_to_rotation_matrix({tuple(v.shape)})")
+            worst = max(worst, check_close(m, R, b + max(floor_aa(float(x)) for x in th), "angle_axis_to_matrix",
+                                           "angle_axis_to_rotation_matrix vs Rodrigues formula"))
         # chain through all representations: v -> q -> R -> q' -> v'
-        m2 = L.quaternion_to_rotation_matrix(q)
+        m2 = L.quaternion_to_rotation_matrix(qt)
+        T(m2, (3, 3), "quat_to_matrix", f"quaternion_to_rotation_matrix({tuple(qt.shape)})")
         q3 = L.rotation_matrix_to_quaternion(m2)
-        v3 = L.quaternion_to_angle_axis(q3)
-        worst = max(worst, check_close(rot_of_vecs(T(v3)), R, b * 8 + FLOOR_M2Q, "repr_chain",
+        v3 = T(L.quaternion_to_angle_axis(q3), (3,), "repr_chain", "v -> q -> R -> q' -> v'")
+        worst = max(worst, check_close(rot_of_vecs(v3), R, b * 8 + FLOOR_M2Q, "repr_chain",
                                        "v -> quaternion -> matrix -> quaternion -> v' is another rotation"))
         nt = bool(n > 1 and (th > 0.05).all())
         labels.append("theta>3" if (th > 3.0).any() else ("theta<0.01" if (th < 0.01).any() else "theta=mid"))
